@@ -6,6 +6,7 @@ reference registry; a second, untouched manager must keep its initial answers.""
 from __future__ import annotations
 
 import itertools
+import os
 
 from vlib.build import rng_for
 
@@ -22,8 +23,8 @@ RULE = ("case = (plug-in type, first two operations); inside, every continuation
 ASSUMPTIONS = ["method names are matched by the plug-ins themselves (built-ins lower-case them); the bare name 'default' is a bare method name like any other (the statement makes no exception for it; get_plugin builds a message about it that it never raises)"]
 EXHAUSTIVE = {"quick": True, "thorough": True}
 BOUNDS = {"quick": {"length_all_types": 3}, "thorough": {"length_all_types": 4, "length_optimizer": 5}}
-REQUIRED = {"quick": {"histories": 30000, "ops_compared": 90000, "other_manager_probes": 30000, "histories_after_a_registration_for_another_type": 10000, "__nontrivial__": 500},
-            "thorough": {"histories": 2000000, "ops_compared": 8000000, "other_manager_probes": 1000000, "histories_after_a_registration_for_another_type": 600000, "__nontrivial__": 1000}}
+REQUIRED = {"quick": {"histories": 30000, "ops_compared": 90000, "other_manager_probes": 30000, "histories_after_a_registration_for_another_type": 10000, "entry_point_plugin_probes": 300, "__nontrivial__": 500},
+            "thorough": {"histories": 2000000, "ops_compared": 8000000, "other_manager_probes": 1000000, "histories_after_a_registration_for_another_type": 600000, "entry_point_plugin_probes": 3000, "__nontrivial__": 1000}}
 TYPES = ["optimizer", "sampler", "realization_filter", "function_estimator", "plan_handler", "plan_step"]
 
 
@@ -146,6 +147,86 @@ def _probe_other(obs, other, ptype, baseline, probes):
     return True
 
 
+_EP_DIR = None
+_EP_MODULE = """from ropt.plugins.optimizer.base import OptimizerPlugin
+from ropt.plugins.sampler.base import SamplerPlugin
+
+
+class _Mixin:
+    def is_supported(self, method):
+        return method.lower() == "ep_alpha"
+
+    @property
+    def allows_discovery(self):
+        return True
+
+    def create(self, *args, **kwargs):
+        raise NotImplementedError
+
+
+class EPOptimizerPlugin(_Mixin, OptimizerPlugin):
+    pass
+
+
+class EPSamplerPlugin(_Mixin, SamplerPlugin):
+    pass
+"""
+
+
+def worker_setup(obs):
+    """A third-party distribution whose plug-ins arrive through the documented entry-point mechanism, under names with upper-case
+    characters (installed into a scratch directory on sys.path before the first manager of this process is made)."""
+    global _EP_DIR  # noqa: PLW0603
+    import atexit  # noqa: PLC0415
+    import shutil  # noqa: PLC0415
+    import sys  # noqa: PLC0415
+    import tempfile  # noqa: PLC0415
+
+    _EP_DIR = tempfile.mkdtemp(prefix="verif_c19_")
+    atexit.register(shutil.rmtree, _EP_DIR, ignore_errors=True)
+    with open(os.path.join(_EP_DIR, "verif_c19_plugins.py"), "w") as fh:
+        fh.write(_EP_MODULE)
+    di = os.path.join(_EP_DIR, "verif_c19_plugins-0.0.1.dist-info")
+    os.makedirs(di)
+    with open(os.path.join(di, "METADATA"), "w") as fh:
+        fh.write("Metadata-Version: 2.1\nName: verif-c19-plugins\nVersion: 0.0.1\n")
+    with open(os.path.join(di, "entry_points.txt"), "w") as fh:
+        fh.write("[ropt.plugins.optimizer]\nMyOpt = verif_c19_plugins:EPOptimizerPlugin\n\n[ropt.plugins.sampler]\nMySampler = verif_c19_plugins:EPSamplerPlugin\n")
+    sys.path.insert(0, _EP_DIR)
+
+
+def _entry_point_plugins(obs):
+    """Plug-ins that arrived through entry points are plug-ins like any other: names case-insensitive, duplicates rejected."""
+    from ropt.exceptions import ConfigError  # noqa: PLC0415
+    from ropt.plugins import PluginManager  # noqa: PLC0415
+
+    uni = _universe()
+    for ptype, name in (("optimizer", "MyOpt"), ("sampler", "MySampler")):
+        pm = PluginManager()
+        for spelling in (name, name.lower(), name.upper()):
+            obs.count("entry_point_plugin_probes")
+            req = f"{spelling}/ep_alpha"
+            sup = pm.is_supported(ptype, req)
+            try:
+                got = pm.get_plugin(ptype, req)
+            except ConfigError:
+                got = None
+            if not sup or got is None or not type(got).__name__.startswith("EP"):
+                obs.violation("entry_point_plugin_not_found_under_its_name", type=ptype, entry_point=name, request=req, is_supported=sup, got=repr(got))
+                return False
+            for prio in (False, True):
+                try:
+                    pm.add_plugin(ptype, spelling, uni["p1"], prioritize=prio)
+                except ConfigError:
+                    continue
+                obs.violation("duplicate_of_an_entry_point_plugin_accepted", type=ptype, entry_point=name, registered_as=spelling, prioritize=prio)
+                return False
+        if pm.get_plugin(ptype, "ep_alpha") is not pm.get_plugin(ptype, name + "/ep_alpha"):
+            obs.violation("entry_point_plugin_not_discovered_by_bare_name", type=ptype, entry_point=name)
+            return False
+    return True
+
+
 _PRISTINE = None
 
 
@@ -205,6 +286,8 @@ def run_case(case, obs):
 
     uni = _universe()
     _pristine()
+    if not _entry_point_plugins(obs):
+        return
     if case["mode"] == "sampled":
         rng = rng_for(obs.seed, "c19", case["i"])
         ptype = TYPES[int(rng.integers(len(TYPES)))]
